@@ -16,6 +16,14 @@ import (
 
 // SendBundle transmits an outbounding bundle.
 func (c *Core) SendBundle(bndl *bpv7.Bundle) {
+	// The sequence number is part of the bundle's ID, which identifies the bundle within the store and is covered by
+	// the signature. Thus, it must be assigned first. IDs of bundles still being stored, e.g., from before a restart
+	// of a node without a clock, are skipped.
+	c.idKeeper.update(bndl)
+	for c.store.KnowsBundle(bndl.ID()) {
+		c.idKeeper.update(bndl)
+	}
+
 	if c.signPriv != nil && bndl.IsAdministrativeRecord() {
 		c.sendBundleAttachSignature(bndl)
 	}
@@ -51,8 +59,6 @@ func (c *Core) transmit(bp BundleDescriptor) {
 	log.WithFields(log.Fields{
 		"bundle": bp.ID(),
 	}).Info("Transmission of bundle requested")
-
-	c.idKeeper.update(bp.MustBundle())
 
 	bp.AddConstraint(DispatchPending)
 	_ = bp.Sync()
